@@ -2,12 +2,12 @@
 import hc_streams
 import hc_oracles as O
 
-QUICK = {"pair": 120, "ideal": 50, "live": 40, "blackout": 30, "ratepair": 50, "hostile": 200, "tx": 80, "rate": 500, "twin": 80, "reuse": 60, "ackflood": 12, "chanmix": 60, "tswin": 60}
+QUICK = {"pair": 120, "ideal": 50, "live": 40, "blackout": 30, "ratepair": 50, "hostile": 200, "tx": 80, "rate": 500, "twin": 80, "reuse": 60, "ackflood": 12, "chanmix": 60, "tswin": 60, "ideallat": 40}
 THOROUGH_FACTOR = 12
 
 STREAM_FN = {
     "pair": hc_streams.pair_faulty, "ideal": hc_streams.pair_ideal, "live": hc_streams.pair_liveness,
-    "blackout": hc_streams.pair_blackout, "ratepair": hc_streams.pair_nocredit, "hostile": hc_streams.hostile, "ackflood": hc_streams.ackflood, "chanmix": hc_streams.chanmix, "tswin": hc_streams.tswin,
+    "blackout": hc_streams.pair_blackout, "ratepair": hc_streams.pair_nocredit, "hostile": hc_streams.hostile, "ackflood": hc_streams.ackflood, "chanmix": hc_streams.chanmix, "tswin": hc_streams.tswin, "ideallat": hc_streams.ideallat,
     "tx": hc_streams.tx, "rate": hc_streams.rate, "twin": hc_streams.twin, "reuse": hc_streams.reuse,
 }
 
@@ -32,3 +32,17 @@ def run_oracles(table, case_name, ops, out):
         if f:
             return f
     return None
+
+
+def codec_roundtrip_stream(seed, tier):
+    """The encode/decode round-trip cases of the C16 codec stream (mode `codec`): the wire format is part of every
+    end-to-end property, so the properties that rest on byte-exact transport run them too."""
+    from props import C16
+    st = C16.streams(seed, tier)[0]
+    cases = [(nm, ops) for (nm, ops) in st["cases"] if nm.startswith("rt")]
+    return dict(stream="codec", mode="codec", cases=cases, hist={"rt": len(cases)})
+
+
+def codec_oracle(name, ops, out):
+    from props import C16
+    return C16.oracle(name, ops, out)
